@@ -60,6 +60,15 @@ func DSLModel(t *rapid.T, o DSLOpts) *Model {
 			m.Conds = append(m.Conds, c.condition(usedC))
 			c.conds = append(c.conds, m.Conds[i].Name)
 		}
+		if o.MultiLine && rapid.IntRange(0, 5).Draw(t, "keywordLines") == 0 {
+			// lines that look like declarations and are none: inside a condition the six keywords are ordinary parameter
+			// names, and a multi-line body may continue with "module in ...", "type == ..." at the start of a line
+			kw := rapid.SampledFrom([]string{"module", "module", "module", "type", "model", "schema", "extend", "relation"}).Draw(t, "keywordParam")
+			cd := Condition{Name: UniqueIdent(t, IdentPlain, o.Rich, usedC, "cond"), Params: []Param{{Name: kw, Type: "int"}, {Name: "x_list", Type: "list", Elem: "int"}}}
+			cd.Expr = "x_list.size() > 1 &&\n  " + kw + " in x_list ||\n" + kw + " == 3 ||\n\t" + kw + " < 0"
+			m.Conds = append(m.Conds, cd)
+			c.conds = append(c.conds, cd.Name)
+		}
 		if tw := caseTwinKind(t, c.conds, usedC, "condTwin", IdentPlain); tw != "" {
 			cd := c.condition(map[string]bool{})
 			cd.Name = tw
@@ -214,7 +223,7 @@ func (c *dslCtx) condition(used map[string]bool) Condition {
 	nP := rapid.IntRange(1, 4).Draw(c.t, "nParams")
 	usedP := map[string]bool{}
 	for i := 0; i < nP; i++ {
-		p := Param{Name: UniqueIdent(c.t, IdentPlain, c.o.Rich, usedP, "param")}
+		p := Param{Name: UniqueIdent(c.t, IdentParam, c.o.Rich, usedP, "param")}
 		switch rapid.IntRange(0, 5).Draw(c.t, "ptype") {
 		case 0:
 			p.Type, p.Elem = "list", rapid.SampledFrom(ParamScalars).Draw(c.t, "pelem")
